@@ -1016,7 +1016,17 @@ func (fr *Frame) execSelect(i *ssa.Select) {
 		} else {
 			savedReach := fr.reach
 			fr.reach = vc.define("selcase", SBool, and(savedReach, eq(idx.T, num(int64(si)))))
+			// `cancellable` in send anchors: the send is an arm of a select that also waits for a context's Done channel
+			fr.sendCancellable = false
+			for _, o := range i.States {
+				if o.Dir == types.RecvOnly {
+					if _, isDone := fr.ctxOfDoneChan(fr.val(o.Chan)); isDone {
+						fr.sendCancellable = true
+					}
+				}
+			}
 			fr.onSend(fr.val(s.Chan), fr.val(s.Send), s.Pos)
+			fr.sendCancellable = false
 			fr.reach = savedReach
 		}
 	}
